@@ -471,7 +471,7 @@ def r6_6(ctx):
     ranges = [c for c in calls_in(fi.node) if isinstance(c.func, ast.Name) and c.func.id == "range"]
     ctx.floor("R6.6", len(ranges), 1, "range() expansions in sequence_set_to_list")
     args = {a.arg for a in fi.node.args.args}
-    ctx.require({"seq_max", "uid_cmd"} <= args, "sequence_set_to_list lost its seq_max/uid_cmd parameters")
+    ctx.require({"seq_max", "uid_cmd"} <= args, "sequence_set_to_list lost its seq_max/uid_cmd parameters", anchor=True)
     pending = []
     for k_site, rc in enumerate(sorted(ranges, key=lambda c: (c.lineno, c.col_offset)), 1):
         # the size of range(a, b) is bounded when its *stop* argument is (the start is >= 0 by the < 1 guards / parser)
@@ -718,18 +718,18 @@ def r6_7(ctx):
 
 
 def run(ctx):
-    r6_1(ctx)
-    r6_2(ctx)
-    r6_3(ctx)
-    r6_4(ctx)
-    r6_6(ctx)
-    r6_7(ctx)
+    ctx.do(r6_1)
+    ctx.do(r6_2)
+    ctx.do(r6_3)
+    ctx.do(r6_4)
+    ctx.do(r6_6)
+    ctx.do(r6_7)
     # R6.5 = C08 R8.1 (a non-BadCommand exception from parse() skips every reply path); admission relation and
     # release-before-acquire are necessary for every command to be answered without the watchdog
     from . import c08, c10
-    c08.r8_1(ctx)
-    c10.r10_2(ctx)
-    c10.r10_5(ctx)
+    ctx.do(c08.r8_1)
+    ctx.do(c10.r10_2)
+    ctx.do(c10.r10_5)
     ctx.trust("frozen: transport/cancel arms of command() that may stay silent = ConnectionResetError, CancelledError, KeyboardInterrupt")
     ctx.trust("frozen: logging calls (logger.*/self.log.*) are non-raising")
 
